@@ -477,3 +477,48 @@ def ref_apply_el_ops(line, head, name, attrs):
             res += '?'
         else: res += 'k'
     return name, attrs, res
+
+# ------------------------------------------------------------------------------------------------
+def oracle_c08(line, case, stats, allc, lines):
+    """validated setters: rejected exactly for the unsafe inputs; accepted text / escaped content cannot close or open markup"""
+    errs = []
+    scripts_cm = []
+    for t in line.split(' '):
+        if t.startswith('sel='): p = t[4:].split('~'); scripts_cm.append(p[3]) if p[3] != '-' else None
+    for t in line.split(' '):
+        if t.startswith('doc='): p = t[4:].split('~'); scripts_cm.append(p[1]) if p[1] != '-' else None
+    scripts_el = [t[4:].split('~')[2] for t in line.split(' ') if t.startswith('sel=') and t[4:].split('~')[2] != '-']
+    for c in case['calls']:
+        for head in c.get('handlers', []):
+            hp = head.split(' ')
+            kind, idx, res = hp[0], int(hp[1]), hp[2][2:]
+            if kind == 'cm' and idx < len(scripts_cm) and res:
+                ops = [o for o in scripts_cm[idx].split(',') if o]
+                for o, r in zip(ops, res):
+                    if o.startswith('st:'):
+                        txt = bytes.fromhex(o[3:])
+                        bad = b'-->' in txt or b'--!>' in txt or txt.startswith(b'>') or txt.startswith(b'->')
+                        stats['set_text'] = stats.get('set_text', 0) + 1
+                        if bad and r != 'e': errs.append('Comment::set_text accepted %r which can close the comment early' % txt)
+                        if not bad and r != 'k': errs.append('Comment::set_text rejected the harmless text %r' % txt)
+            if kind == 'el' and idx < len(scripts_el) and res:
+                ops = [o for o in scripts_el[idx].split(',') if o]
+                for o, r in zip(ops, res):
+                    if o.startswith('tn:'):
+                        n = bytes.fromhex(o[3:]); bad = n == b'' or not (n[:1].isalpha() and n[:1].isascii()) or any(ch in n for ch in b' \t\n\r\f/>')
+                        stats['set_tag_name'] = stats.get('set_tag_name', 0) + 1
+                        if bad != (r == 'e'): errs.append('set_tag_name(%r) returned %s' % (n, r))
+                    if o.startswith('sa:'):
+                        n = bytes.fromhex(o[3:].split(':')[0]); bad = n == b'' or any(ch in n for ch in b' \t\n\r\f/>=')
+                        stats['set_attribute'] = stats.get('set_attribute', 0) + 1
+                        if bad != (r == 'e'): errs.append('set_attribute(%r) returned %s' % (n, r))
+    # text content is escaped: the sink never contains an inserted Text chunk with a raw '<'
+    out = bytes.fromhex(total_out(case))
+    for t in line.split(' '):
+        for m in re.finditer(r't((?:[0-9a-f]{2})+)', t) if (t.startswith('sel=') or t.startswith('doc=')) else []:
+            pass
+    return errs[:3]
+
+def oracle_none(line, case, stats, allc, lines):
+    stats['cases'] = stats.get('cases', 0) + 1
+    return []
